@@ -74,6 +74,11 @@ PROPS = {
     'C07': seq_prop('c07', 120, 2000, mc=[MC_SNAP], more=[fam('seq', 'c07k', 40, 500)]),
     'C08': {'level': 'model_checking', 'mc': [MC_SNAP, MC_SNAP_ASBUILT], 'families': [fam('conc', 'c08', 32, 500), fam('conc', 'c08dfs', 1, 12)], 'trace': COLUMN_TRACE, 'assumptions': []},
     'C09': {'level': 'model_checking', 'mc': [MC_CONC_STRICT], 'families': [fam('conc', 'c09', 48, 800)], 'trace': COLUMN_TRACE, 'assumptions': []},
+    'C10': {'level': 'model_checking', 'assumptions': ['torn reads are searched for statistically under real parallelism (16 cores); the latch probes are deterministic'],
+            'mc': [{'module': 'Latch', 'cfg': 'MC_Latch.cfg', 'constants': {'READLATCH': 'TRUE'}, 'quick': {}, 'thorough': {}, 'deadlock': True},
+                   {'module': 'Latch', 'cfg': 'MC_Latch.cfg', 'constants': {'READLATCH': 'FALSE'}, 'quick': {}, 'thorough': {}, 'deadlock': True, 'expect_violation': True}],
+            'trace': {'module': 'LatchTrace', 'cfg': 'LatchTrace.cfg'},
+            'families': [fam('latch', 'short', 3, 0, shards=1), fam('latch', 'long', 0, 4, shards=1)]},
     'C11': seq_prop('c11', 100, 2000, mc=[MC_CONC_STRICT, MC_CONC_ASBUILT], more=[fam('conc', 'c11', 32, 500)]),
     'C12': seq_prop('c12', 150, 2500, mc=[MC_KEYS_STRICT, MC_KEYS_ASBUILT], more=[fam('conc', 'c12', 24, 400)]),
     'C13': {'level': 'model_checking', 'mc': [MC_SNAP], 'families': [fam('trunc', 'c13', 8, 16, shards=8), fam('trunc', 'c13t', 0, 8, shards=8),
@@ -87,5 +92,13 @@ PROPS = {
                    {'module': 'Expire', 'cfg': 'MC_Expire.cfg', 'constants': {}, 'quick': {'R3': ''}, 'thorough': {'R3': ', r3'}, 'asbuilt': True, 'deadlock': True}],
             'trace': {'module': 'ExpireTrace', 'cfg': 'ExpireTrace.cfg'},
             'families': [fam('exp', 'c17', 16, 64, shards=16)]},
+    'C18': {'level': 'exploration', 'race': True, 'custom': 'c18', 'assumptions': ['the race detector only reports races that happen in the explored executions', 'reports are attributed to model variables by the function table of bin/racemap.py'],
+            'mc': [{'module': 'MCLocks', 'cfg': 'MC_Locks.cfg', 'constants': {'RACY': '{"colList", "registry", "data0", "idxFill"}', 'PROPS': ''},
+                    'quick': {'THREADS': '{"reader", "writer0", "grow", "ins", "snap"}'}, 'thorough': {'THREADS': '{"reader", "writer0", "grow", "ins", "snap", "index"}'}, 'deadlock': True},
+                   {'module': 'MCLocks', 'cfg': 'MC_Locks.cfg', 'constants': {'RACY': '{}', 'PROPS': '', 'THREADS': '{"reader", "writer0", "grow", "ins", "snap", "index"}'},
+                    'quick': {}, 'thorough': {}, 'deadlock': True, 'expect_violation': True},
+                   {'module': 'MCLocks', 'cfg': 'MC_Locks.cfg', 'constants': {'RACY': '{"colList", "registry", "data0", "idxFill"}', 'PROPS': 'PROPERTIES Termination', 'THREADS': '{"reader", "writer0", "ins"}'},
+                    'quick': {}, 'thorough': {}, 'deadlock': True, 'thorough_only': True}],
+            'trace': {'module': 'LocksTrace', 'cfg': 'LocksTrace.cfg'}, 'families': []},
     'C19': seq_prop('c19', 150, 2500, mc=[MC_STORE_STRICT]),
 }
